@@ -202,6 +202,9 @@ class Complementary:
         if self.acc.shape != self.gyr.shape:
             raise ValueError(f"Could not operate on acc array of shape {self.acc.shape} and gyr array of shape {self.gyr.shape}.")
         W = np.zeros_like(self.acc)
+        valid = np.linalg.norm(self.acc, axis=1) > 0    # samples with a usable accelerometer reading
+        if self.w0 is None and not valid[0]:
+            raise ValueError("The first accelerometer sample must be non-zero to initialize the attitude.")
         if self.mag is None:
             # Estimation with IMU only (Gyroscopes and Accelerometers)
             W2 = self.am_estimation(self.acc)
@@ -216,10 +219,18 @@ class Complementary:
         if self.mag is None:
             # Estimation with IMU only (Gyroscopes and Accelerometers)
             for i in range(1, len(W)):
+                if not valid[i]:
+                    # Null accelerometer sample: integrate the gyroscopes only
+                    W[i, :2] = W[i-1, :2] + self.gyr[i, :2]*self.Dt
+                    continue
                 W[i, :2] = (W[i-1, :2] + self.gyr[i, :2]*self.Dt)*self.gain + W2[i, :2]*(1.0-self.gain)
             return W
         # Estimation with MARG (IMU and Magnetometer)
         for i in range(1, len(W)):
+            if not valid[i]:
+                # Null accelerometer sample: integrate the gyroscopes only
+                W[i] = W[i-1] + self.gyr[i]*self.Dt
+                continue
             W[i] = (W[i-1] + self.gyr[i]*self.Dt)*self.gain + W2[i]*(1.0-self.gain)
         return W
 
@@ -265,7 +276,8 @@ class Complementary:
         # Estimation for 2-dimensional arrays
         angles = np.zeros_like(acc)   # Allocation of angles array
         # Estimate tilt angles
-        a = acc/np.linalg.norm(acc, axis=1)[:, None]
+        a_norm = np.linalg.norm(acc, axis=1)
+        a = acc/np.where(a_norm > 0, a_norm, 1.0)[:, None]    # null samples give null angles (skipped in _compute_all)
         angles[:, 0] = np.arctan2(a[:, 1], a[:, 2])
         angles[:, 1] = np.arctan2(-a[:, 0], np.sqrt(a[:, 1]**2 + a[:, 2]**2))
         if mag is not None:
